@@ -308,6 +308,44 @@ def s3(prog, rep):
                       function=f.name, construct="overflow-guard:" + e.op)
     if n < 3:
         rep.defer_broken("S3: fewer than 3 accumulations into *size")
+    # ... and the other edge of each of those tests rejects: the state becomes the error state (the value the final
+    # `state == E ? -1 : 0` answers -1 for) before anything else happens
+    err = None
+    for r in f.returns():
+        for t in subterms(norm(r.kid(0))) if r.kids else ():
+            if isinstance(t, tuple) and len(t) == 3 and t[0] in ("==", "!=") and t[1][0] == "v" and t[1][1] == "state" and t[2][0] == "c":
+                err = t[2]
+    if err is None:
+        for b in f.blocks.values():
+            if b.cond is not None and any(e.cls == "ReturnStmt" for x in b.succs if x is not None for e in f.blocks[x].elems):
+                for op, L, R, _, _ in cond_atoms(b.cond, True):
+                    if L[0] == "v" and L[1] == "state" and R[0] == "c" and op in ("==", "!="):
+                        err = R
+    m = 0
+    for b in f.blocks.values():
+        if b.cond is None or len(b.succs) != 2:
+            continue
+        for op, L, R, _, _ in cond_atoms(b.cond, True):
+            if op == ">" and L == sz and R[0] in ("/", "-", "c") and (R[0] != "c" or R[1] > 2 ** 32):
+                m += 1
+                t = f.blocks[b.succs[0]] if b.succs[0] is not None else None
+                first = None
+                hops = 0
+                while t is not None and first is None and hops < 4:
+                    hops += 1
+                    for e in t.elems:
+                        if e.is_assign or e.cls == "CallExpr":
+                            first = e
+                            break
+                    if first is None:
+                        t = f.blocks[t.succs[0]] if len(t.succs) == 1 and t.succs[0] is not None else None
+                ok = err is not None and first is not None and first.is_assign and first.op == "=" and norm(first.kid(0))[0] == "v" and norm(first.kid(0))[1] == "state" and norm(first.kid(1)) == err
+                rep.check(ok, "S3-arith", "overflow at `%s` rejects the string" % b.cond.text[:40], b.cond.where,
+                          "on the edge where the value no longer fits, the first effect must be state = %s (the state the function answers -1 for); found `%s`"
+                          % (show(err) if err else "?", first.text[:40] if first is not None else "nothing"), function=f.name, construct="overflow-rejects")
+                break
+    if m < 3:
+        rep.defer_broken("S3: fewer than 3 overflow tests on *size")
     # switch coverage
     sw = [b for b in f.blocks.values() if b.term_cls == "SwitchStmt" and norm(b.cond) == ("v", "state", norm(b.cond)[2] if len(norm(b.cond)) > 2 else 0)]
     cases = set()
